@@ -29,6 +29,8 @@ def main(argv):
     import time
     import framework
     from framework import Check
+    # a call into the library that does not return is a failing input, not a hung check
+    framework.install_watchdog(float(os.environ.get('VERIF_CALL_LIMIT_S', '20' if tier == 'quick' else '180')))
     try:
         if replay:
             return mod.replay(Check(pid, tier, seed, keep_replays=True), replay)
